@@ -1,5 +1,61 @@
-(** C08 -- placeholder while the proofs are built *)
-From RL Require Import Model.Decode.
-Theorem C08_placeholder : m_decode strict_opts [] = Val (Err [IncompleteFlags], []).
-Proof. reflexivity. Qed.
-Print Assumptions C08_placeholder.
+(** C08 -- Decoding consumes exactly the declared length; octets beyond it have
+    no influence; AVP records are decoded only from their own octets.  Stated on
+    the Spec and transported to the Model by C05.  (The back-to-back sequence
+    statement is C08_sequence in Properties/C03.v's round-trip development once
+    messages are produced by the encoder; here it is stated for arbitrary accepted
+    inputs.) *)
+From RL Require Import Model.Decode Spec.SpecDecode Proofs.Framing.
+
+(** the declared length fits: control (12 <= Length <= |b|) or data carrying L *)
+Theorem C08_suffix : forall o b s, 2 <= len b ->
+  (if fw_T (fld 2 0 b) then ctrl_declared_ok b else data_declared_ok b) ->
+  s_decode o (b ++ s) = add_rest s (s_decode o b).
+Proof. exact decode_suffix. Qed.
+
+(** ... which is the case for every accepted control message and every accepted
+    data message with a length field *)
+Theorem C08_accepted_have_declared_length : forall o b x, s_decode o b = Ok x ->
+  2 <= len b /\ (fw_T (fld 2 0 b) = true -> ctrl_declared_ok b) /\
+  (fw_T (fld 2 0 b) = false -> fw_L (fld 2 0 b) = true -> data_declared_ok b).
+Proof. exact accepted_declared_ok. Qed.
+
+Corollary C08_accepted_suffix : forall o b s m rest,
+  s_decode o b = Ok (m, rest) ->
+  (fw_T (fld 2 0 b) = true \/ fw_L (fld 2 0 b) = true) ->
+  s_decode o (b ++ s) = Ok (m, rest ++ s).
+Proof.
+  intros o b s m rest H TL.
+  destruct (accepted_declared_ok o b _ H) as (H2 & HC & HD).
+  rewrite decode_suffix; [rewrite H; reflexivity | exact H2 |].
+  destruct (fw_T (fld 2 0 b)) eqn:T; [apply HC; reflexivity|].
+  apply HD; [reflexivity|]. destruct TL as [X|X]; [discriminate|exact X].
+Qed.
+
+(** exactly the declared octets are consumed *)
+Theorem C08_ctrl_consumes_declared : forall o b m rest,
+  s_ctrl o b = Ok (m, rest) -> rest = dropN (fld 2 2 b) b.
+Proof.
+  intros o b m rest. unfold s_ctrl.
+  repeat match goal with |- (if ?c then _ else _) = _ -> _ => destruct c; try discriminate end.
+  intros H; inversion H; reflexivity.
+Qed.
+
+Theorem C08_avps_concat : forall rs, forallb well_delimited rs = true ->
+  fst (s_avps (concat rs)) = concat (map (fun r => fst (s_avps r)) rs).
+Proof. exact avps_concat_is_concat. Qed.
+
+Theorem C08_avps_records : forall rs, forallb well_delimited rs = true ->
+  s_avps (concat rs) = (map s_record rs, []).
+Proof. exact avps_concat. Qed.
+
+Example C08_example :
+  s_decode strict_opts ([19;32;0;20; 0;1;0;2;0;3;0;4; 1;8;0;0;0;0;0;6] ++ [7;7;7]) =
+  add_rest [7;7;7] (s_decode strict_opts [19;32;0;20; 0;1;0;2;0;3;0;4; 1;8;0;0;0;0;0;6]).
+Proof. vm_compute. reflexivity. Qed.
+
+Print Assumptions C08_suffix.
+Print Assumptions C08_accepted_have_declared_length.
+Print Assumptions C08_accepted_suffix.
+Print Assumptions C08_ctrl_consumes_declared.
+Print Assumptions C08_avps_concat.
+Print Assumptions C08_avps_records.
